@@ -17,6 +17,11 @@ CHECKS = {
  "C06": ("model_checking", "TLC checks absence of the internal-error state, correct cycle/pool errors and termination (liveness under weak fairness) on the specification incl. cyclic and cyclic-through-validation graphs and phase-1 reuse; recorded executions must end without panic/hang/livelock, with a valid cycle diagnostic exactly when the ordering closure is cyclic, and validation targets must not hold a step back (adversarial 'hold' schedules).", "5 C06", "TLA+ spec N2Work model-checked with TLC (safety + liveness) + TLC trace validation (TraceObs) incl. hang/livelock watchdog"),
  "C18": ("model_checking", "TLC checks started ⊆ Needed(targets) and wanted = Needed(targets) on the specification for all target subsets; recorded executions: every start is inside the closure computed from the declared graph, the set of steps n2 considered equals the closure, unknown names are rejected before anything runs.", "5 C18", "TLA+ spec N2Work model-checked with TLC + TLC trace validation (TraceObs) over target subsets/defaults"),
  "C19": ("model_checking", "TLC checks counts = cardinalities, pending and monotonicity on the specification; every progress update recorded from the real code is compared with the state of the mirrored steps and with the commands actually running (from start/finish events), the final summary with the number of successful commands.", "5 C19", "TLA+ spec N2Work model-checked with TLC + TLC trace validation (TraceObs) of every Progress::update"),
+ "C02": ("model_checking", "TLC checks clean-build equivalence (file contents as provenance terms, compared with what a from-scratch build would produce) for the manifest rule over all histories of <= 5-6 operations (edit/touch/delete sources, outputs, header; change includes; switch manifest versions; target subsets; failing commands; restat) on three project variants, and shows that dropping any signature component breaks it; the same rule (same TLA+ operators) is evaluated on the mirrored store of recorded histories of the real n2: a wanted step left unbuilt while the rule calls it dirty, a missing or spurious log record, is a violation.", "5 C02", "TLA+ spec N2Hist/N2Store model-checked with TLC + TLC trace validation (TraceObs store mirror) of multi-invocation histories"),
+ "C03": ("model_checking", "TLC checks on N2Hist that after a successful invocation the same request would run nothing (also after an identity-preserving manifest rewrite and after restat); on recorded histories every start must be of a step the rule calls dirty on the mirrored store, and an immediately repeated invocation must start nothing.", "5 C03", "TLA+ spec N2Hist/N2Store model-checked with TLC + TLC trace validation (TraceObs) of multi-invocation histories"),
+ "C08": ("model_checking", "The log is mirrored record by record from what n2 wrote (outputs, deps, hash token); at every load the state n2 reports per step must equal the latest applicable record of the mirror under the current manifest; histories reorder/rename/re-style/include-split the manifest and move or drop outputs. TLC checks attribution (C08) and no-rerun across reordered versions on N2Hist.", "5 C08", "TLA+ spec N2Store/N2Hist model-checked with TLC + TLC trace validation (TraceObs log mirror) across manifest rewrites"),
+ "C09": ("model_checking", "Recorded histories in which reported dependency sets grow, shrink, overlap declared and order-only inputs, disappear, and are spelled differently: the list n2 records must equal the canonical report (first occurrences minus declared inputs), what it loads must equal what it recorded, a missing reported file must dirty the step without an error, /showIncludes lines must be filtered from the shown output. TLC checks the list semantics on N2Hist.", "5 C09", "TLA+ spec N2Hist model-checked with TLC + TLC trace validation (TraceObs) with scripted depfile / showIncludes reports"),
+ "C17": ("model_checking", "Recorded histories with a generator step producing the manifest (versions add/remove/rewire steps, -f alternative name, failing regeneration, targets that exist in one version only): only the manifest's closure may start before the reload, a reload must follow a successful regeneration, the graph n2 reports after the reload must be the one of the text now on disk, and failure of the regeneration stops everything. TLC checks reuse of phase-1 results on N2Work (family pre).", "5 C17", "TLC trace validation (TraceObs) of regeneration histories + TLA+ spec N2Work (family pre) model-checked with TLC"),
 }
 import sys
 sys.path.insert(0, "/verif/tools")
